@@ -169,6 +169,20 @@ CHECKS = {
         note='Trusted: z3, IR executor, stubs; little-endian host; HDF5 applies the fill value it was given.',
         technique='symbolic execution of LLVM IR to SMT (z3), constant-buffer interpretation per path',
         design_ref='DESIGN.md section 4 C07'),
+    'C10': dict(
+        level='fault_enumeration',
+        text='The C write path is executed from IR in fault mode: every fallible environment call (mkdir, H5Fcreate, H5Dcreate2, H5Dset_extent, '
+             'H5Dwrite of data and of the index, H5Dclose, H5Fclose, rename, remove) returns a symbolic status under the two single-fault '
+             'schedules of the property (fails once / fails persistently from one point on) with the fault position a solver variable; '
+             'because many results are not branched on by the code, each possible fault position of a path is examined under the assumption '
+             'that it happened. z3 shows: a file one of whose operations failed is never renamed to its final name; an accepted sample that '
+             'does not end up in an intact published file is reported no later than the first call after the failure; after has_failure the '
+             'writer refuses further writes; files finalized before the fault are not touched. The real build is then run under an '
+             'LD_PRELOAD fault injector (write / rename / mkdir failing at every position, once or persistently) to validate the model.',
+        note='Trusted: z3, IR executor, stubs; an OS failure surfaces as the failure of some HDF5/libc call of the writer. Histories: 2 calls '
+             '(thorough 3) + close, <= 2 files per call.',
+        technique='symbolic execution of LLVM IR to SMT (z3) with symbolic fault schedules + fault-injection replay on the real build',
+        design_ref='DESIGN.md section 4 C10'),
 }
 
 NOT_YET = 'check not built yet in this revision of /verif (planned, see DESIGN.md section 4)'
